@@ -38,7 +38,7 @@ func refTruthy(v V) bool {
 	return true // objects
 }
 
-func rv(v V) (Out, bool)       { return Out{Kind: "val", Val: v}, true }
+func rv(v V) (Out, bool)        { return Out{Kind: "val", Val: v}, true }
 func rerr(k string) (Out, bool) { return Out{Kind: "err", Msg: k}, true }
 
 // int(f) as the platform computes it
